@@ -53,8 +53,9 @@ type Engine struct {
 }
 
 type workItem struct {
-	js     *JobState
-	prefix []int64
+	js      *JobState
+	prefix  []int64
+	retries int
 }
 
 // Job is one harness instance.
@@ -64,6 +65,7 @@ type Job struct {
 	Params   map[string]int64 `json:"params"`
 	MaxPaths int              `json:"max_paths"`
 	Witness  int              `json:"witnesses"` // how many path witnesses to keep
+	MaxSplit int              `json:"max_split"` // case-split budget of the tabulation hook (0 = tabulate single-variable nodes only)
 }
 
 // NondetRec is one value obtained from a nondet call, in call order.
@@ -134,6 +136,7 @@ type JobResult struct {
 	Steps          int64          `json:"steps"`
 	PathsNeedingSolver int        `json:"paths_solver"`
 	Complete       bool           `json:"complete"`
+	SolverRestarts int            `json:"solver_restarts"`
 }
 
 type JobState struct {
@@ -208,6 +211,7 @@ type Worker struct {
 	nextTable int
 	nvar      int
 	inHeavy   bool
+	encoded   []value
 	heavyCache map[tkey]*Term
 	tableBySig map[string]*Table
 	tabulated int
@@ -231,10 +235,10 @@ func NewEngine(prog *ssa.Program) *Engine {
 	e := &Engine{
 		Prog:          prog,
 		MaxSteps:      5_000_000,
-		MaxSplit:      4096,
+		MaxSplit:      1 << 16,
 		SolverBin:     "z3",
-		TimeoutMs:     10_000,
-		HardTimeoutMs: 120_000,
+		TimeoutMs:     1_500,
+		HardTimeoutMs: 60_000,
 		Workers:       1,
 		globals:       map[*ssa.Global]*value{},
 		pkgInit:       map[*ssa.Package]bool{},
@@ -393,6 +397,7 @@ func (e *Engine) newWorker(id int) (*Worker, error) {
 	if err != nil {
 		return nil, err
 	}
+	sol.HardMs = e.HardTimeoutMs
 	if e.SMTTrace != "" {
 		f, err := os.Create(fmt.Sprintf("%s.%d.smt2", e.SMTTrace, id))
 		if err == nil {
@@ -420,64 +425,85 @@ func (w *Worker) heavy(op Op, a, b *Term) *Term {
 	if r, ok := w.heavyCache[hk]; ok {
 		return r
 	}
-	// narrow results are cheap for the solver
-	ia, ib := w.tb.IV(a), w.tb.IV(b)
+	tb := w.tb
+	// narrow products are cheap for the solver
+	ia, ib := tb.IV(a), tb.IV(b)
 	if op == OpMul && ia.uhi <= 0xffff && ib.uhi <= 0xffff && ia.uhi*ib.uhi <= 0xffff {
 		return nil
 	}
-	vars := w.varsOf(a)
-	for _, v := range w.varsOf(b) {
-		dup := false
-		for _, x := range vars {
-			if x == v {
-				dup = true
+	support := func() []*Term {
+		vars := w.varsOf(a)
+		for _, v := range w.varsOf(b) {
+			dup := false
+			for _, x := range vars {
+				if x == v {
+					dup = true
+				}
+			}
+			if !dup {
+				vars = append(vars, v)
 			}
 		}
-		if !dup {
-			vars = append(vars, v)
-		}
-	}
-	if len(vars) == 0 {
-		return nil
-	}
-	prod := 1
-	var keep *Term
-	for _, v := range vars {
-		d := w.dom[v]
-		if d == nil || d.n > 4096 {
-			return nil
-		}
-		if d.count > 1 {
-			prod *= d.count
-			if prod > w.eng.MaxSplit*4096 {
-				return nil
-			}
-		}
-		if keep == nil || d.count > w.dom[keep].count {
-			keep = v
-		}
-	}
-	forks := prod / w.dom[keep].count
-	if forks > w.eng.MaxSplit {
-		return nil
-	}
-	if forks > 1 && a.w < 32 {
-		return nil // narrow nodes are only tabulated, never case-split
+		return vars
 	}
 	w.inHeavy = true
 	defer func() { w.inHeavy = false }()
-	tb := w.tb
-	split := false
-	for _, v := range vars {
-		if v == keep {
-			continue
+	var keep *Term
+	splitAny := false
+	for {
+		vars := support()
+		if len(vars) == 0 {
+			if !splitAny {
+				return nil
+			}
+			w.inHeavy = false
+			return tb.Bin(op, a, b)
 		}
+		prod := 1
+		keep = nil
+		var smallest *Term
+		for _, v := range vars {
+			d := w.dom[v]
+			if d == nil || d.n > 300 {
+				if splitAny {
+					w.inHeavy = false
+					return tb.mk(op, a.w, 0, tb.ck(a), tb.ck(b), nil, nil)
+				}
+				return nil
+			}
+			c := d.count
+			if c < 1 {
+				c = 1
+			}
+			prod *= c
+			if prod > 1<<22 {
+				prod = 1 << 22
+			}
+			if keep == nil || d.count > w.dom[keep].count {
+				keep = v
+			}
+		}
+		for _, v := range vars {
+			if v != keep && (smallest == nil || w.dom[v].count < w.dom[smallest].count) {
+				smallest = v
+			}
+		}
+		if smallest == nil {
+			break // exactly one variable left
+		}
+		if a.w < 32 {
+			return nil // narrow nodes are only tabulated, never case-split
+		}
+		if op == OpMul || prod/maxInt(1, w.dom[keep].count) > w.js.job.MaxSplit {
+			if splitAny {
+				w.inHeavy = false
+				return tb.mk(op, a.w, 0, tb.ck(a), tb.ck(b), nil, nil)
+			}
+			return nil
+		}
+		// case split over the values still allowed for the smallest variable
+		v := smallest
 		d := w.dom[v]
-		if d.count <= 1 {
-			continue
-		}
-		split = true
-		// case split over the values still allowed
 		done := false
 		for i := 0; i < d.n && !done; i++ {
 			if !d.has(i) {
@@ -491,12 +517,20 @@ func (w *Worker) heavy(op Op, a, b *Term) *Term {
 		if !done {
 			panic(pathEnd{"infeasible"})
 		}
-	}
-	if split {
+		splitAny = true
+		w.afterConcretize(v)
 		memo := map[*Term]*Term{}
 		a, b = tb.Rebuild(a, memo), tb.Rebuild(b, memo)
+		if a.op == OpConst && b.op == OpConst {
+			w.inHeavy = false
+			return tb.Bin(op, a, b)
+		}
+	}
+	if splitAny {
+		// retry the ordinary rules on the rebuilt operands first
 		w.inHeavy = false
-		return tb.Bin(op, a, b)
+		r := tb.Bin(op, a, b)
+		return r
 	}
 	// single variable: tabulate over its whole declared range
 	d := w.dom[keep]
@@ -725,6 +759,7 @@ func (w *Worker) resetPath(it workItem) {
 	w.depth = 0
 	w.nondets = nil
 	w.observes = nil
+	w.encoded = nil
 	w.usedSolver = false
 	w.mapOrderNondet = false
 	w.tables = map[*value]*Table{}
@@ -776,6 +811,18 @@ func (w *Worker) runPath(it workItem) {
 		}
 	}()
 
+	if strings.HasPrefix(engErr, "solver process died") && it.retries < 3 {
+		// transient: run the same path again with the restarted solver
+		it.retries++
+		it.js.mu.Lock()
+		it.js.res.SolverRestarts++
+		it.js.mu.Unlock()
+		w.eng.mu.Lock()
+		w.eng.stack = append(w.eng.stack, it)
+		w.eng.mu.Unlock()
+		w.eng.cond.Signal()
+		return
+	}
 	var wit *Witness
 	js := it.js
 	js.mu.Lock()
@@ -914,9 +961,17 @@ func (w *Worker) split(d *domain, v *Term, c *Term) (dt, df *domain) {
 }
 
 // feasibility of pc ∧ c: (yes, no, unknown→treated as yes)
+func (w *Worker) checkAlive() {
+	if w.sol.Died {
+		panic(engineError{"solver process died during this path (context lost)"})
+	}
+}
+
 func (w *Worker) feasible(c *Term) (bool, bool) {
+	w.checkAlive()
 	r := w.sol.Check(c)
 	w.usedSolver = true
+	w.checkAlive()
 	switch r {
 	case Unsat:
 		return false, true
@@ -1172,6 +1227,38 @@ func (w *Worker) tableFor(elems []value, width uint8) *Table {
 	return t
 }
 
+func maxInt(a, b int) int {
+	if a > b {
+		return a
+	}
+	return b
+}
+
+// afterConcretize re-derives single-variable facts from multi-variable path
+// constraints once v has become a constant.
+func (w *Worker) afterConcretize(v *Term) {
+	memo := map[*Term]*Term{}
+	for _, c := range w.pc {
+		if c.nvars != 2 {
+			continue
+		}
+		uses := false
+		for _, x := range w.varsOf(c) {
+			if x == v {
+				uses = true
+			}
+		}
+		if !uses {
+			continue
+		}
+		c2 := w.tb.Rebuild(c, memo)
+		if c2 != c && c2.nvars <= 1 && !c2.IsConst() {
+			w.noteConstraint(c2)
+			w.tb.Refine(c2)
+		}
+	}
+}
+
 // ---- nondet values ----
 
 func (w *Worker) freshVar(name string, width uint8) *Term {
@@ -1193,8 +1280,10 @@ func (w *Worker) freshVar(name string, width uint8) *Term {
 // ---- assertions, panics, witnesses ----
 
 func (w *Worker) model() (map[*Term]uint64, Result) {
+	w.checkAlive()
 	r, m := w.sol.CheckModel(TrueT, w.tb.vars)
 	w.usedSolver = true
+	w.checkAlive()
 	return m, r
 }
 
@@ -1337,15 +1426,10 @@ func (w *Worker) assertT(fr *frame, c *Term, id string) {
 		}
 	}
 	if !done {
+		w.checkAlive()
 		r, m = w.sol.CheckModel(neg, w.tb.vars)
 		w.usedSolver = true
-		if r == Unknown && w.eng.HardTimeoutMs > 0 {
-			w.sol.define(neg)
-			r2, _ := OneShot(w.eng.SolverBin, w.sol.Script(), neg.ref(), w.eng.HardTimeoutMs)
-			if r2 == Unsat {
-				r = Unsat
-			}
-		}
+		w.checkAlive()
 	}
 	switch r {
 	case Unsat:
